@@ -107,10 +107,10 @@ def _prog(ctx, cfg):
       explanation=('Decided clauses of memory safety: E1 path-sensitive typestate over the CFG of every function that acquires or '
                    'releases a resource (owners, windows, permutations and their windows, wrapper and libc blocks, tables, heaps, '
                    'FILE/png handles): released/returned/stored on every path, no double release, no use after release, destructor '
-                   'kind matches (a view never frees its parent).'),
+                   'kind matches (a view never frees its parent). SP1: split-point windows stay inside the split dimension. WB1: windows into matrices created in the same function end inside them (alignment-shifted tables).'),
       not_decided='absence of out-of-bounds word accesses in general, signed overflow')
 def c11(ctx):
-    from . import resources as R, align as AL, contracts as CT, families as B
+    from . import resources as R, align as AL, contracts as CT, families as B, intervals as IVs
     out = []
     for cfg in _configs(ctx):
         prog = _prog(ctx, cfg)
@@ -122,6 +122,8 @@ def c11(ctx):
         ctx.add(out, lab, AL.rule_D0, ctx, prog, lab)
         ctx.add(out, lab, AL.rule_D1, ctx, prog, lab)
         ctx.add(out, lab, AL.rule_D2, ctx, prog, lab)
+        ctx.add(out, lab, IVs.rule_SP1, ctx, prog, lab)
+        ctx.add(out, lab, IVs.rule_WB1, ctx, prog, lab)
     _selftest(ctx, out, ['E1', 'D0'])
     return out
 
@@ -215,7 +217,7 @@ def c13(ctx):
 
 @prop('C08', level='other',
       explanation=('C1 restricted to the data movers (copy, copy_row, set_ui, submatrix both paths, concat, stack, extract_u/l, the nine '
-                   'routes of _mzd_add, combine_even): every store is masked or interior for its destination. A1: sources unchanged.'),
+                   'routes of _mzd_add, combine_even): every store is masked or interior for its destination. A1: sources unchanged. MV1: the placers never accumulate into their destination without clearing the same bits first.'),
       not_decided='that any transpose kernel transposes; bit positions in general (value level)')
 def c08(ctx):
     from . import masks as M, const_rules as CR, contracts as CT
@@ -224,10 +226,12 @@ def c08(ctx):
         prog = _prog(ctx, cfg)
         lab = _label(cfg)
         ctx.add(out, lab, M.rule_C1, ctx, prog, lab, only=MOVERS, rule='C1-movers')
+        ctx.add(out, lab, M.rule_MV1, ctx, prog, lab)
         ctx.add(out, lab, M.rule_C4, ctx, prog, lab)
         ctx.add(out, lab, CR.rule_A2, ctx, prog, lab)
         ctx.add(out, lab, CT.rule_F2, ctx, prog, lab)
         ctx.add(out, lab, CR.rule_A1, ctx, prog, lab)
+    _selftest(ctx, out, ['MV1'])
     return out
 
 
@@ -237,10 +241,10 @@ def c08(ctx):
                    'a fresh matrix is zero whatever the heap or the block cache hands back. C6/C6b: product kernels are called with clear=TRUE '
                    'on caller-visible destinations in overwriting entry points, clear=FALSE only in the documented accumulate variants or into a '
                    'matrix created by mzd_init immediately before. C1 over all writers and A2: no store can set a bit past the last column of an '
-                   'owned matrix. C4: raw kernels never see a source or destination with foreign excess bits.'),
+                   'owned matrix. C4: raw kernels never see a source or destination with foreign excess bits. A2i: constructors assign every header field before reading it or returning. PI1: output permutations are identity-filled up to the dimension.'),
       not_decided='independence from uninitialised ple_table_t scratch arrays and from call history in general (value level)')
 def c10(ctx):
-    from . import masks as M, const_rules as CR, purity as P
+    from . import masks as M, const_rules as CR, purity as P, contracts as CTp
     out = []
     cfgs = _configs(ctx, extra=[dict(frontend.host_config(), sse2=0), frontend.thread_safe_configs()[0]])
     for cfg in cfgs:
@@ -253,6 +257,8 @@ def c10(ctx):
         ctx.add(out, lab, M.rule_C1, ctx, prog, lab)
         ctx.add(out, lab, M.rule_C4, ctx, prog, lab)
         ctx.add(out, lab, CR.rule_A2, ctx, prog, lab)
+        ctx.add(out, lab, CR.rule_A2i, ctx, prog, lab)
+        ctx.add(out, lab, CTp.rule_PI1, ctx, prog, lab)
     return out
 
 
@@ -278,7 +284,7 @@ BIT_FUNCS = {'m4ri_spread_bits', 'm4ri_shrink_bits', 'm4ri_swap_bits'}
       explanation=('Structural clauses of multiplication: A1 (factors have no write effect on any route); B1/B2/B3 (Duff devices and N-table '
                    'combine kernels: complete label sets, affine literals and callee suffixes, case K reads exactly tables 0..K-1; NTABLES '
                    'dispatch calls the matching instantiation); F1 (all six front ends test the inner dimension and the shape of C before any '
-                   'work); F2 (allocated result shape = demanded shape); C6/C6b (clear flags by role); C2 (tables written only by builders).'),
+                   'work); F2 (allocated result shape = demanded shape); C6/C6b (clear flags by role); C2 (tables written only by builders). C6d extended to the overwriting entry points (mzd_mul, mzd_mul_m4rm, mzd_mul_naive, mzd_mul_mp).'),
       not_decided='that the Bodrato sequence, the k-splitting and the parity kernel compute A*B (value level); the Strassen empty-quadrant abort needs arithmetic on mmm and is not found by these rules')
 def c01(ctx):
     from . import intervals as IV
@@ -334,10 +340,10 @@ def c02(ctx):
                    '_mzd_ple_a11_N: affine table indices, prefix-sum chains sh[j] = k[0]+..+k[j-1]), the ntables dispatch and _kk_setup; '
                    'F1 (P, Q lengths validated before work); E1 on the PLE functions (ple_table_t, windows, permutation windows and their kinds); '
                    'B2c word-count guards; F4/F8 permutation loops; F6/F7 dimension and position typing of the Schur-complement step; W2/W2b '
-                   '(word index and bit mask of a pivot test come from the same value of the column variable).'),
+                   '(word index and bit mask of a pivot test come from the same value of the column variable). SP1: windows starting at a half-split point end at the dimension the split was computed from. PI1: output permutations are identity-filled up to the matrix dimension.'),
       not_decided='P*L*U*Q = A, rank profile, zero storage outside L and U (value level)')
 def c03(ctx):
-    from . import coords as CO, pivot as PV, blockmove as BM
+    from . import coords as CO, pivot as PV, blockmove as BM, intervals as IVs
     from . import families as B, contracts as CT, resources as R
     out = []
     for cfg in _configs(ctx, extra=[dict(frontend.host_config(), sse2=0)]):
@@ -356,6 +362,8 @@ def c03(ctx):
         ctx.add(out, lab, PV.rule_FP1, ctx, prog, lab)
         ctx.add(out, lab, BM.rule_CL1, ctx, prog, lab)
         ctx.add(out, lab, CT.rule_F11, ctx, prog, lab)
+        ctx.add(out, lab, IVs.rule_SP1, ctx, prog, lab)
+        ctx.add(out, lab, CT.rule_PI1, ctx, prog, lab)
     return out
 
 
@@ -364,10 +372,10 @@ def c03(ctx):
                    'B1 on the 2x64-statement pack/unpack runs and the NTABLES switches of both Four-Russians routines; D1 (their tables are '
                    'phase-matched to B); C1 on the word base cases. T1: the triangular operand is read only inside its named triangle '
                    '(diagonal windows stay triangular, in-triangle blocks are free, every bit read has its coordinate inequality proved '
-                   'from the enclosing loops, any other consumer - a copy, a product, a word read - is a finding).'),
+                   'from the enclosing loops, any other consumer - a copy, a product, a word read - is a finding). SP1: windows starting at the half-split point end at the dimension the split was computed from.'),
       not_decided='T*X = B (value level)')
 def c04(ctx):
-    from . import families as B, contracts as CT, const_rules as CR, align as AL, masks as M, triangle as TR
+    from . import families as B, contracts as CT, const_rules as CR, align as AL, masks as M, triangle as TR, intervals as IVs
     out = []
     for cfg in _configs(ctx, extra=[dict(frontend.host_config(), sse2=0)]):
         prog = _prog(ctx, cfg)
@@ -380,6 +388,7 @@ def c04(ctx):
         ctx.add(out, lab, AL.rule_D1, ctx, prog, lab, only_funcs={'_mzd_trsm_upper_left_russian', '_mzd_trsm_lower_left_russian'})
         ctx.add(out, lab, M.rule_C1, ctx, prog, lab, only=TRSM_FUNCS | {'_mzd_trsm_lower_left', '_mzd_trsm_upper_left', '_mzd_trsm_upper_right_base', '_mzd_trsm_lower_right_base'}, rule='C1-trsm')
         ctx.add(out, lab, TR.rule_T1, ctx, prog, lab)
+        ctx.add(out, lab, IVs.rule_SP1, ctx, prog, lab)
         ctx.add(out, lab, B.rule_B7p, ctx, prog, lab)
     _selftest(ctx, out, ['B7p'])
     return out
@@ -473,10 +482,10 @@ def c12(ctx):
                    'old block was released, every path of m4ri_mmc_free caches or releases the block, cleanup covers the same slot range and '
                    'm4ri_fini calls it, mzd_free releases data only for non-windows, an emptied header block is unlinked on both sides, is never '
                    'the static block and is released. C5: fresh matrices are zeroed after any recycling. E1 (kinds): a permutation or matrix view '
-                   'is never released with the owner\'s destructor.'),
+                   'is never released with the owner\'s destructor. A2i: a recycled header slot carries nothing over - every field is assigned before it is read or returned.'),
       not_decided='behaviour over histories (eviction order, free-entry search, the 64-header block boundary): value/history level; the optional hook is not needed by this technique')
 def c14(ctx):
-    from . import resources as R, purity as P
+    from . import resources as R, purity as P, const_rules as CRu
     out = []
     h = frontend.host_config()
     cfgs = [dict(h, mmc=1, mzdcache=1, openmp=0), frontend.thread_safe_configs()[0], frontend.openmp_configs()[0]]
@@ -491,6 +500,7 @@ def c14(ctx):
         lab = _label(cfg)
         ctx.add(out, lab, R.rule_E5, ctx, prog, lab)
         ctx.add(out, lab, P.rule_C5, ctx, prog, lab)
+        ctx.add(out, lab, CRu.rule_A2i, ctx, prog, lab)
         out.append((lab, R.rule_E1(ctx, prog, lab, only_funcs={'mzd_init', 'mzd_init_window', 'mzd_free', 'mzd_t_malloc', 'mzd_t_free', '_mzd_ple', '_mzd_pluq',
                                                                 'mzd_ple', 'mzd_pluq', '_mzd_apply_p_right_even', 'mzp_init', 'mzp_free', 'mzp_init_window',
                                                                 'mzp_free_window', 'mzp_copy', 'm4ri_mmc_malloc', 'm4ri_mmc_free', 'm4ri_mmc_cleanup'}, rule='E1-alloc')))
